@@ -129,7 +129,7 @@ static std::string hex(const std::vector<std::uint8_t>& v) { return hex(v.data()
 
 // ------------------------------------------------------------------------------------------------
 static long long real_ms() { timespec ts; clock_gettime(CLOCK_MONOTONIC, &ts); return ts.tv_sec * 1000LL + ts.tv_nsec / 1000000; }
-static long long g_timeout_ms = 20000;
+static long long g_timeout_ms = 10000;
 
 static std::vector<std::uint8_t> gen_payload(std::size_t n, unsigned long long seed) {
     std::vector<std::uint8_t> v(n, 0);
@@ -328,7 +328,7 @@ struct Driver {
             if (real_ms() > deadline) {
                 // something that should have happened did not (this is reported through the trace); do not spend the
                 // full patience again on every later wait of this run
-                if (g_timeout_ms > 1500) g_timeout_ms = 1500;
+                if (g_timeout_ms > 300) g_timeout_ms = 300;
                 return true;
             }
             usleep(200);
